@@ -147,6 +147,8 @@ def render(doc, n, marker):
 # ---------------------------------------------------------------- worker (sub-process)
 WORKER = r'''
 import json, sys, os, importlib, importlib.abc
+if os.environ.get("VP_NO_LIBYAML") == "1":
+    sys.modules["yaml._yaml"] = None   # a PyYAML installation without the libyaml extension
 class Hook(importlib.abc.MetaPathFinder):
     def __init__(self): self.seen = []
     def find_spec(self, name, path=None, target=None):
@@ -155,6 +157,9 @@ class Hook(importlib.abc.MetaPathFinder):
 hook = Hook(); sys.meta_path.insert(0, hook)
 import vp.fx_canary as canary, vp.fx_plugins as plugins
 from cobald.daemon.core.config import load, COBalDLoader
+from cobald.daemon.config.yaml import load_configuration as yaml_load_configuration
+import inspect as _inspect
+DefaultLoader = _inspect.signature(yaml_load_configuration).parameters["loader"].default
 from cobald.decorator import standardiser
 _orig = standardiser.Standardiser.__init__
 def _init(self, *a, **k):
@@ -173,8 +178,13 @@ for item in job["items"]:
     del canary.FIRED[:]; del hook.seen[:]; plugins.reset()
     exc = ""
     try:
-        with load(path) as cfg:
+        if item.get("entry") == "yaml_default":
+            # the YAML reader of the package on its own, with its DEFAULT loader
+            yaml_load_configuration(path)
             outcome = "loaded"
+        else:
+            with load(path) as cfg:
+                outcome = "loaded"
     except BaseException as e:
         outcome = "rejected"; exc = type(e).__module__ + "." + type(e).__name__
     fired = list(canary.FIRED) + ["import:" + s for s in hook.seen]
@@ -185,21 +195,28 @@ probe = {}
 for kind, tag in job["probe"].items():
     handled = tag in COBalDLoader.yaml_constructors or any(p is None or tag.startswith(p) for p in COBalDLoader.yaml_multi_constructors)
     probe[kind] = bool(handled)
+    dh = tag in DefaultLoader.yaml_constructors or any(p is None or tag.startswith(p) for p in DefaultLoader.yaml_multi_constructors)
+    probe["default:" + kind] = bool(dh)
 json.dump({"results": out, "probe": probe}, sys.stdout)
 '''
 
 
-def run_docs(docs, seed):
+def run_docs(docs, seed, entry=None, no_libyaml=False):
     """render and load all documents in parallel sub-processes; returns (traces, probe)"""
     d = tlc.subdir("c18-docs")
     items = []
     for n, doc in enumerate(docs):
         marker = os.path.join(d, "marker_%d" % n)
-        items.append({"n": n, "yaml": render(doc, n, marker), "marker": marker})
+        if entry == "yaml_default":
+            # nothing but the bad node: no registered tag the default loader would stumble over
+            b = [x for x in doc if x["kind"] != "plugin"][0]
+            items.append({"n": n, "yaml": "__config_test:\n  k: %s\n" % bad_yaml(b, n * 10, marker), "marker": marker, "entry": entry})
+        else:
+            items.append({"n": n, "yaml": render(doc, n, marker), "marker": marker})
     probe_tags = {k: tag_string(k, "vp.fx_canary.sentinel") for k in BAD_KINDS}
     nproc = 12
     chunks = [items[i::nproc] for i in range(nproc)]
-    env = core.child_env({"PYTHONPATH": os.pathsep.join([os.path.join(core.repo_root(), "src"), core.ROOT, os.path.join(core.ROOT, "fixture_dist")])})
+    env = core.child_env({"PYTHONPATH": os.pathsep.join([os.path.join(core.repo_root(), "src"), core.ROOT, os.path.join(core.ROOT, "fixture_dist")]), "VP_NO_LIBYAML": "1" if no_libyaml else "0"})
     procs = []
     for ch in chunks:
         p = subprocess.Popen([sys.executable, "-c", WORKER], stdin=subprocess.PIPE, stdout=subprocess.PIPE, stderr=subprocess.PIPE, env=env, text=True, cwd=d)
@@ -258,8 +275,10 @@ def run(ctx):
     thorough = ctx.tier == "thorough"
     # (0) probe the real loader class (after plugins are registered by a real load())
     _, probe = run_docs([[{"kind": "plugin", "target": "plugin:VLazy", "pos": "", "shape": ""}]], ctx.seed)
-    unsafe = sorted(k for k, h in probe.items() if h)
+    unsafe = sorted(k for k, h in probe.items() if h and not k.startswith("default:"))
+    unsafe_default = sorted(k.split(":", 1)[1] for k, h in probe.items() if h and k.startswith("default:"))
     ctx.extra["loader_handles_non_plugin_kinds"] = unsafe
+    ctx.extra["default_loader_of_config_yaml_handles_non_plugin_kinds"] = unsafe_default
     # (1) model check with the probed table, emitting the documents
     res = tlc.run("MCYS", mc_cfg(invariants=not unsafe), module_text=mc_module("MCYS", unsafe, thorough), workers=1, timeout=3000)
     if unsafe:
@@ -281,6 +300,24 @@ def run(ctx):
     verdicts, tstates = traceval.validate("YamlSafetyTrace", [{"doc": t["doc"], "events": t["events"]} for t in traces], consts, timeout=3000)
     ctx.extra["trace_states"] = tstates
     judge(ctx, traces, verdicts)
+    # the package's YAML reader on its own (cobald.daemon.config.yaml.load_configuration with its
+    # DEFAULT loader): the single-bad-node documents, reduced to the bad node
+    singles = [d for d in docs if len([x for x in d if x["kind"] != "plugin"]) == 1 and [x for x in d if x["kind"] != "plugin"][0]["pos"] in ("section_value", "lazy_arg", "pipeline_item")]
+    singles = [[x for x in d if x["kind"] != "plugin"] for d in singles]
+    traces2, _ = run_docs(singles, ctx.seed, entry="yaml_default")
+    consts2 = " UnsafeHandled = {%s}\n BadKinds = {}\n Targets = {%s}" % (", ".join('"%s"' % u for u in unsafe_default), ", ".join('"%s"' % t for t in TARGETS))
+    verdicts2, tstates2 = traceval.validate("YamlSafetyTrace", [{"doc": t["doc"], "events": t["events"]} for t in traces2], consts2, timeout=3000, name="YamlSafetyTrace-default")
+    ctx.extra["default_loader_documents"] = len(singles)
+    judge(ctx, traces2, verdicts2)
+    # the same documents (a sample) on a PyYAML installation without the libyaml extension: the
+    # loader class - and so the constructor table - may be chosen differently there
+    sample = docs[::7]
+    traces3, probe3 = run_docs(sample, ctx.seed, no_libyaml=True)
+    unsafe3 = sorted(k for k, h in probe3.items() if h and not k.startswith("default:"))
+    ctx.extra["loader_handles_non_plugin_kinds_without_libyaml"] = unsafe3
+    consts3 = " UnsafeHandled = {%s}\n BadKinds = {}\n Targets = {%s}" % (", ".join('"%s"' % u for u in unsafe3), ", ".join('"%s"' % t for t in TARGETS))
+    verdicts3, _ = traceval.validate("YamlSafetyTrace", [{"doc": t["doc"], "events": t["events"]} for t in traces3], consts3, timeout=3000, name="YamlSafetyTrace-nolibyaml")
+    judge(ctx, traces3, verdicts3)
     ctx.samples = [{"yaml": traces[0]["yaml"], "events": traces[0]["events"]}, {"yaml": traces[len(traces) // 2]["yaml"], "events": traces[len(traces) // 2]["events"]}]
     ctx.extra["rule"] = "one case = one YAML document with one (thorough: up to two) python/* or unregistered tag of 19 kinds x 5 named targets x 10 positions x 3 argument shapes, enumerated by TLC; distinct non-trivial = distinct (kinds, targets, positions, outcome)"
     ctx.assumptions = ["side effects are observed through canaries: recording callable/class, import hook for not-yet-imported modules, marker files for os.system, patched __init__ of a registered plugin class", "documents are loaded through cobald.daemon.core.config.load with the installed entry points plus fixture plugins (fixture_dist/vpfix-0.dist-info)"]
@@ -289,7 +326,7 @@ def run(ctx):
 def replay(ctx, payload):
     docs = [payload["case"]["doc"]]
     _, probe = run_docs([[{"kind": "plugin", "target": "plugin:VLazy", "pos": "", "shape": ""}]], 0)
-    unsafe = sorted(k for k, h in probe.items() if h)
+    unsafe = sorted(k for k, h in probe.items() if h and not k.startswith("default:"))
     traces, _ = run_docs(docs, 0)
     consts = " UnsafeHandled = {%s}\n BadKinds = {}\n Targets = {%s}" % (", ".join('"%s"' % u for u in unsafe), ", ".join('"%s"' % t for t in TARGETS))
     verdicts, _ = traceval.validate("YamlSafetyTrace", [{"doc": t["doc"], "events": t["events"]} for t in traces], consts)
